@@ -1,3 +1,4 @@
+import ast
 import re
 
 from excel2pycl.src.context import Context
@@ -19,19 +20,25 @@ class LambdaTokenTranslator(AbstractTranslator):
         condition_value = literal
 
         if literal:
-            parsed_literal = re.findall(r'^\'(>=|<=|>|<|<>)((\d+)((\.)(\d+))?(e(-?\d+))?)?\'$', literal)
+            # the literal is python code (repr of the text, a number, True / False): the criterion is read from its value
+            try:
+                literal_value = ast.literal_eval(literal)
+            except (ValueError, SyntaxError):
+                literal_value = None
+
+            parsed_literal = re.findall(r'^(>=|<=|<>|>|<|=)(.*)$', literal_value, re.DOTALL) \
+                if isinstance(literal_value, str) else None
             if parsed_literal:
-                parsed_literal = parsed_literal[0]
-                if parsed_literal[0]:
-                    condition_symbol = parsed_literal[0]
-                    if condition_symbol == '<>':
-                        condition_symbol = '!='
+                # ">5", "<>apple", "=3", or a bare operator that is completed by & expression
+                operator, operand = parsed_literal[0]
+                condition_symbol = {'<>': '!=', '=': '=='}.get(operator, operator)
 
-                if parsed_literal[1]:
-                    condition_value = parsed_literal[1]
+                if re.fullmatch(r'(\d+)((\.)(\d+))?(e(-?\d+))?', operand):
+                    condition_value = operand
+                elif operand:
+                    condition_value = repr(operand)
                 else:
-                    condition_value = expression
-
+                    condition_value = expression if expression else repr('')
             else:
                 if expression:
                     condition_value = expression
@@ -41,8 +48,13 @@ class LambdaTokenTranslator(AbstractTranslator):
         if getattr(getattr(token.expression, 'left_operand', None), 'value', None) \
                 and isinstance(token.expression.left_operand.value[0], PatternToken):
             return context.set_sub_cell(
-                token.in_cell, f'lambda x: re.match(self._regexp({condition_value}), str(x))'
+                token.in_cell,
+                f'lambda x: re.match(self._regexp({condition_value}), str(x))'
             )
+
+        # an ordering criterion (">5") never accepts a text cell; comparing a text with a number would raise
+        number_condition = f'x{condition_symbol}{condition_value}' if condition_symbol in ('==', '!=') \
+            else f'(not isinstance(x, str) and x{condition_symbol}{condition_value})'
 
         return context.set_sub_cell(
             token.in_cell, f'lambda x: '
@@ -50,5 +62,5 @@ class LambdaTokenTranslator(AbstractTranslator):
                            f'if self._parse_date_obj({condition_value}) '
                            f'else str(x).lower(){condition_symbol}str({condition_value}).lower() '
                            f'if isinstance({condition_value}, str) '
-                           f'else x{condition_symbol}{condition_value}'
+                           f'else {number_condition}'
         )
